@@ -53,3 +53,9 @@ ASSUME.update({
          "a proper blobRefPrefix is modelled by the set of refs it matches (HasPrefix itself is C20's subject); constraint leaves outside the modelled fragment are checked against the reference evaluator only",
          "Go's sort.Sort on the result (blobref sort) is assumed to sort; the unordered answers are compared as sets"],
 })
+ASSUME.update({
+ "C19": ["a blob's bytes are a function of its ref (the copier re-hashes what it fetched; hash collisions are not modelled), so the destination either holds a blob intact or not at all",
+         "the queue KV, the source and the destination are maps whose single operations are atomic (C10, C01); the harness' instrumented wrappers serialise and log their effects",
+         "the removal from needCopy right after queue.Delete is not observable and is folded into the queue.Delete item when a trace is replayed",
+         "wall-clock behaviour (queueSyncInterval sleeps) is not modelled; 'eventually' is rounds in the theorem and a deadline in the harness"],
+})
